@@ -152,6 +152,13 @@ NOINST int bus_wait_quiescent(int max_ms) {
 	return rc;
 }
 
+NOINST int bus_is_quiescent(void) {
+	__real_pthread_mutex_lock(&bmx);
+	int q = !receiver_alive || (in_pos >= in_len && idle_polls >= 2);
+	__real_pthread_mutex_unlock(&bmx);
+	return q;
+}
+
 /* ------------------------------------------------------------------ node model */
 #define MAXNODES 64
 typedef struct {
